@@ -48,7 +48,13 @@ for f in files:
     if f.startswith('circuits/net') or f.startswith('circuits/io'):
         dirs.update(['tests/web', 'tests/node'])
 t = sh(['/venv/bin/python', '-m', 'pytest', '-q', '-p', 'no:cacheprovider', '--timeout=900',
-        '--deselect', 'tests/net/test_tcp.py::test_tcp_lookup_failure'] + sorted(dirs), cwd=wt, timeout=1500)
+        '--deselect', 'tests/net/test_tcp.py::test_tcp_lookup_failure', '--deselect', 'tests/core/test_signals.py',
+        '--deselect', 'tests/app/test_daemon.py', '-x'] + sorted(dirs), cwd=wt, timeout=2400)
+if t.returncode != 0:
+    # load-sensitive tests: one retry of the failures only
+    t = sh(['/venv/bin/python', '-m', 'pytest', '-q', '--timeout=900', '--lf',
+            '--deselect', 'tests/net/test_tcp.py::test_tcp_lookup_failure', '--deselect', 'tests/core/test_signals.py',
+            '--deselect', 'tests/app/test_daemon.py'] + sorted(dirs), cwd=wt, timeout=2400)
 meta['tests_run'] = sorted(dirs)
 meta['tests_tail'] = t.stdout.strip().splitlines()[-1] if t.stdout.strip() else ''
 meta['tests_pass'] = t.returncode == 0
